@@ -13,7 +13,7 @@ import warnings
 
 from sim import kernel, scenes, seams
 from sim.digest import chunk_parts, parts_digest
-from sim.minimise import ddmin
+from sim.minimise import shrink_history
 
 PROP = 'C20'
 POOL_CLASSES = ['no-hit', 'single-hit', 'sparse', 'vv', 'many-sets', 'many-sets', 'msa-crop',
@@ -202,30 +202,26 @@ def _package(case, vio):
                         f'{json.dumps(case["ops"])[:400]}'}
 
 
-def minimise(case, vio):
-    want = (vio['clause'], vio['what'] if vio['clause'] == 'plot-raised' else None)
+def shrink(vio, evaluate):
+    want = (vio['clause'], vio['signature'].get('what'))
 
-    def fails(sub):
-        v = run_history(dict(case, ops=sub))
-        return v is not None and (v['clause'],
-                                  v['what'] if v['clause'] == 'plot-raised' else None) == want
-    ops = case['ops'][:vio['pos'] + 1]
-    small = ddmin(ops, fails, max_runs=25)
-    v = run_history(dict(case, ops=small))
-    if v is None:
-        small, v = case['ops'], vio
-    # keep only the chunks still used
-    used = sorted({o[1] % len(case['scenes']) for o in small if o[0] == 'plot'})
-    if used and len(used) < len(case['scenes']):
+    def same(v):
+        return v is not None and (v['clause'], v['signature'].get('what')) == want
+    small = shrink_history(vio, evaluate, same=same, max_runs=30)
+    if small is None:
+        return None
+    case = small['case']
+    n = len(case['scenes'])
+    used = sorted({o[1] % n for o in case['ops'] if o[0] == 'plot'})
+    if used and len(used) < n:          # keep only the chunks still used
         remap = {old: new for new, old in enumerate(used)}
-        ops2 = [[o[0], remap[o[1] % len(case['scenes'])]] + o[2:] if o[0] == 'plot' else o
-                for o in small]
+        ops2 = [[o[0], remap[o[1] % n]] + o[2:] if o[0] == 'plot' else o for o in case['ops']]
         cand = {'scenes': [case['scenes'][i] for i in used],
                 'metas': [case['metas'][i] for i in used], 'ops': ops2}
-        v2 = run_history(cand)
-        if v2 is not None and v2['clause'] == v['clause']:
-            return _package(cand, v2)
-    return _package(dict(case, ops=small), v)
+        v2 = evaluate(cand)
+        if same(v2):
+            return v2
+    return small
 
 
 def replay(case):
@@ -309,7 +305,8 @@ def execute(run):
                                                'prms': s['prms']} for s in pool],
                                    'metas': metas, 'ops': ops})
         if vio is not None:
-            out['violations'].append(minimise(case, vio))
+            case['ops'] = ops[:vio['pos'] + 1]
+            out['violations'].append(_package(case, vio))
     return out
 
 
